@@ -96,7 +96,8 @@ def depth(tier):
 
 KV_SETS = ([[["a", v]] for v in (None, 1, 2)] + [[["b", v]] for v in (None, "x")]
            + [[["a", va], ["b", vb]] for va in (None, 1, 2) for vb in (None, "x")]
-           + [[["b", vb], ["a", va]] for va in (None, 1, 2) for vb in (None, "x")])
+           + [[["b", vb], ["a", va]] for va in (None, 1, 2) for vb in (None, "x")]
+           + [[["a", [1, 2]]], [["a", []]], [["b", ["x", None]]]])   # a list as the value of a condition is a value like any other
 SORT_KEYS = ([[]] + [[["a", d]] for d in (1, -1)] + [[["b", d]] for d in (1, -1)]
              + [[["a", d1], ["b", d2]] for d1 in (1, -1) for d2 in (1, -1)]
              + [[["b", d1], ["a", d2]] for d1 in (1, -1) for d2 in (1, -1)])
@@ -173,6 +174,8 @@ def chain_ops():
     for name in ("filter", "filter_out"):
         ops.append({"op": name, "pred": "a_eq_1"})
         ops.append({"op": name, "pred": "a_is_none"})
+    # (a list as the value of a condition is a value: equal to no item here, not "any of these")
+    ops += [{"op": "filter", "kv": [["a", [1, 2]]]}, {"op": "filter_out", "kv": [["a", [1, None]]]}, {"op": "filter", "kv": [["a", []]]}]
     ops += [{"op": "filter", "kv": [["a", 1]]}, {"op": "filter_out", "kv": [["a", None]]},
             {"op": "filter", "kv": [["a", 1], ["b", "x"]]}, {"op": "filter_out", "kv": [["b", "x"], ["a", 2]]}]
     for keys in ([["a", 1]], [["a", -1]], [["b", 1]], [["b", -1], ["a", 1]], [["a", -1], ["b", 1]]):
